@@ -46,6 +46,7 @@ def run(ck):
         ck.bump("loss", c["loss"]); ck.bump("mask", c["mask"]); ck.bump("maskdtype", c["maskdtype"])
         nmasked = sum(1 for row in r["inputs"]["good"] for g in row if not g)
         ck.count(json.dumps(c), nontrivial=nmasked > 0)
+        r["oracle"] = [m_ for m_ in r["oracle"] if not m_.startswith("Student-t scale")]     # (a C07 clause, reported there)
         if r["oracle"]:
             oracle_bad.append((c, r))
     ck.rule = ("ten losses x mask patterns (none, all-False, random, all-but-one masked) x bool/int/float masks on small dyadic images; the implementation-side oracle replaces "
